@@ -67,7 +67,7 @@ Fixpoint iter_tbl (n : nat) (step : tbl -> tbl) (t : tbl) : tbl :=
 
 Definition empty_tbl : tbl := map (fun _ => None) all_defs.
 
-Definition words : tbl :=
+Definition words (u : unit) : tbl :=
   iter_tbl 24 (fun W => map (fun og => match og with Some g => word W g | None => None end) all_defs) empty_tbl.
 
 (* bytes after which g is about to call function t, given such prefixes for every function *)
@@ -92,11 +92,11 @@ Fixpoint reach (W R : tbl) (t : N) (g : G) : option (list byte) :=
        match l with [] => None | x :: l' => shorter (reach W R t x) (ra l') end) gs
   end.
 
-Definition reach_tbl (t : N) : tbl :=
-  iter_tbl 24 (fun R => map (fun og => match og with Some g => reach words R t g | None => None end) all_defs) empty_tbl.
+Definition reach_tbl (W : tbl) (t : N) : tbl :=
+  iter_tbl 24 (fun R => map (fun og => match og with Some g => reach W R t g | None => None end) all_defs) empty_tbl.
 
-Definition probe_of (t : N) (ns : list N) : list (list byte) :=
-  let R := reach_tbl t in
+Definition probe_of (W : tbl) (t : N) (ns : list N) : list (list byte) :=
+  let R := reach_tbl W t in
   match lookup R t, lookup R f_parser_x_parse_response with
   | Some c, Some p =>
     match c with
@@ -108,4 +108,94 @@ Definition probe_of (t : N) (ns : list N) : list (list byte) :=
 
 (* one family of probes per parser function that can call itself *)
 Definition probes (ns : list N) : list (list byte) :=
-  flat_map (fun k => probe_of (N.of_nat k) ns) (seq 0 (length all_defs)).
+  let W := words tt in flat_map (fun k => probe_of W (N.of_nat k) ns) (seq 0 (length all_defs)).
+
+(* ---------------------------------------------------------------- sentences covering every written alternative *)
+
+Definition opt_list (o : option (list byte)) : list (list byte) := match o with Some w => [w] | None => [] end.
+
+(* sentences of g that between them take every alternative and repetition shape written in g itself
+   (a call is filled with the one word of the callee) *)
+Fixpoint variants (W : tbl) (g : G) : list (list byte) :=
+  match g with
+  | Leaf l => opt_list (leaf_word l)
+  | Ref f _ => opt_list (lookup W f)
+  | Guard _ g' | Recognize g' | Map _ g' | MapRes _ g' => variants W g'
+  | Seq gs =>
+    (fix vs (l : list G) (pre : list byte) : list (list byte) :=
+       match l with
+       | [] => []
+       | x :: l' =>
+         match word W (Seq l') with
+         | Some suf => map (fun v => pre ++ v ++ suf) (variants W x)
+         | None => []
+         end ++
+         match word W x with Some w => vs l' (pre ++ w) | None => [] end
+       end) gs []
+  | Alt gs => (fix va (l : list G) : list (list byte) := match l with [] => [] | x :: l' => variants W x ++ va l' end) gs
+  | Opt g' | OptOpt g' => [] :: variants W g'
+  | Many0 g' => [] :: variants W g' ++ match word W g' with Some w => [w ++ w] | None => [] end
+  | Many1 g' => variants W g' ++ match word W g' with Some w => [w ++ w] | None => [] end
+  | SepList0 s g' =>
+    [] :: variants W g' ++ match word W g', word W s with Some w, Some ws => [w ++ ws ++ w] | _, _ => [] end
+  | SepList1 s g' =>
+    variants W g' ++ match word W g', word W s with Some w, Some ws => [w ++ ws ++ w] | _, _ => [] end
+  | Unsupported _ => []
+  end.
+
+Definition ctbl := list (option (list byte * list byte)).
+
+Definition clookup (t : ctbl) (f : N) : option (list byte * list byte) :=
+  match nth_error t (N.to_nat f) with Some (Some w) => Some w | _ => None end.
+
+Definition cshorter (a b : option (list byte * list byte)) : option (list byte * list byte) :=
+  match a, b with
+  | Some (p, s), Some (p', s') => if Nat.leb (length p + length s) (length p' + length s') then a else b
+  | Some _, None => a
+  | None, _ => b
+  end.
+
+(* (prefix, suffix) around one call of t inside g *)
+Fixpoint ctx (W : tbl) (C : ctbl) (t : N) (g : G) : option (list byte * list byte) :=
+  match g with
+  | Leaf _ | Unsupported _ => None
+  | Ref f _ => if f =? t then Some ([], []) else clookup C f
+  | Guard _ g' | Opt g' | OptOpt g' | Many0 g' | Many1 g' | Recognize g' | Map _ g' | MapRes _ g' => ctx W C t g'
+  | SepList0 _ g' | SepList1 _ g' => ctx W C t g'
+  | Seq gs =>
+    (fix cs (l : list G) : option (list byte * list byte) :=
+       match l with
+       | [] => None
+       | x :: l' =>
+         match ctx W C t x, word W (Seq l') with
+         | Some (p, s), Some suf => Some (p, s ++ suf)
+         | _, _ => match word W x, cs l' with Some a, Some (p, s) => Some (a ++ p, s) | _, _ => None end
+         end
+       end) gs
+  | Alt gs =>
+    (fix ca (l : list G) : option (list byte * list byte) :=
+       match l with [] => None | x :: l' => cshorter (ctx W C t x) (ca l') end) gs
+  end.
+
+Fixpoint iter_ctbl (n : nat) (step : ctbl -> ctbl) (t : ctbl) : ctbl :=
+  match n with O => t | S n' => iter_ctbl n' step (step t) end.
+
+Definition ctx_tbl (W : tbl) (t : N) : ctbl :=
+  iter_ctbl 24 (fun C => map (fun og => match og with Some g => ctx W C t g | None => None end) all_defs)
+    (map (fun _ => None) all_defs).
+
+Definition sentences_of (W : tbl) (t : N) : list (list byte) :=
+  match env t with
+  | None => []
+  | Some g =>
+    let around := if t =? f_parser_x_parse_response then Some ([], []) else clookup (ctx_tbl W t) f_parser_x_parse_response in
+    match around with
+    | Some (p, s) => map (fun v => p ++ v ++ s) (variants W g)
+    | None => []
+    end
+  end.
+
+(* for every parser function reachable from the top: whole responses that between them take every alternative
+   written in that function *)
+Definition sentences (u : unit) : list (list byte) :=
+  let W := words u in flat_map (fun k => sentences_of W (N.of_nat k)) (seq 0 (length all_defs)).
